@@ -146,7 +146,7 @@ def run(ctx, config='rel-all'):
     # ownership transfers (into_raw / from_raw / leak / into_inner) run no destructor -- the obligations of C17
     from .. import runner
     from . import c17
-    c17.run(runner.Sub(ctx, 'R6', 'C17'), config)
+    c17.run(runner.Sub(ctx, 'R6', 'C17', only={'R1', 'R3', 'R4', 'R5', 'R7'}), config)     # not the trait forwarding (R2) / views (R6): those move no ownership
     # ---- R7 every slot of [0, len) holds exactly one owned element only if the element-moving algorithms are std's: a cursor
     # that steps the wrong way, a length lowered after (not before) the drop, a shifted copy of the wrong extent all duplicate or
     # lose elements, i.e. run a destructor twice or never.  The formula clauses (O2) and the unwind typestate (R6) of C13.
